@@ -25,6 +25,7 @@ def isFnA : Ast → Bool
 def leafLit : Ast → Option V
   | .num n => some (.num n)
   | .str cs => some (V.mkStr cs)
+  | .bytes bs => some (V.mkBytes bs)
   | .tt => some V.tt
   | .ff => some V.none
   | _ => none
@@ -412,6 +413,7 @@ theorem AR.refl (a : Ast) :
   induction a with
   | num n => exact ⟨AR.leaf (v := .num n) rfl, AR.junkI rfl rfl, AR.endC rfl rfl, by simp [stripA]⟩
   | str cs => exact ⟨AR.leaf (v := V.mkStr cs) rfl, AR.junkI rfl rfl, AR.endC rfl rfl, by simp [stripA]⟩
+  | bytes bs => exact ⟨AR.leaf (v := V.mkBytes bs) rfl, AR.junkI rfl rfl, AR.endC rfl rfl, by simp [stripA]⟩
   | tt => exact ⟨AR.leaf (v := V.tt) rfl, AR.junkI rfl rfl, AR.endC rfl rfl, by simp [stripA]⟩
   | ff => exact ⟨AR.leaf (v := V.none) rfl, AR.junkI rfl rfl, AR.endC rfl rfl, by simp [stripA]⟩
   | ident x => exact ⟨AR.ident [] x rfl, AR.junkI rfl rfl, AR.endC rfl rfl, by simp [stripA]⟩
@@ -503,6 +505,7 @@ theorem substA_rel (x : String) {lv : Ast} {v : V} (hl : leafLit lv = some v) (h
   induction a with
   | num n => exact ⟨AR.leaf (v := .num n) rfl, AR.junkI rfl rfl, AR.endC rfl rfl, by simp [stripA]⟩
   | str cs => exact ⟨AR.leaf (v := V.mkStr cs) rfl, AR.junkI rfl rfl, AR.endC rfl rfl, by simp [stripA]⟩
+  | bytes bs => exact ⟨AR.leaf (v := V.mkBytes bs) rfl, AR.junkI rfl rfl, AR.endC rfl rfl, by simp [stripA]⟩
   | tt => exact ⟨AR.leaf (v := V.tt) rfl, AR.junkI rfl rfl, AR.endC rfl rfl, by simp [stripA]⟩
   | ff => exact ⟨AR.leaf (v := V.none) rfl, AR.junkI rfl rfl, AR.endC rfl rfl, by simp [stripA]⟩
   | ident y =>
